@@ -3,7 +3,7 @@ import json, os
 import vlib
 
 PID = "C07"
-CFG = 'SPECIFICATION Spec\nINVARIANTS BaseAccepted T7a Emit\nCHECK_DEADLOCK FALSE\n'
+CFG = 'CONSTANT Mode = "c07"\nSPECIFICATION Spec\nINVARIANTS BaseAccepted T7a Emit\nCHECK_DEADLOCK FALSE\n'
 
 
 def gen():
